@@ -158,7 +158,7 @@ G('lz.lemma_repeat_offset_ref', ['C04'], 'lz', None, harness='h_lemma_repeat_off
 lz('GetNextCode', solver='cvc5', timeout=900, what='tree walk terminates, stays in the arrays, returns a symbol < 314 (needs the quantified structural tree invariant)')
 lz('DecompressCode', reach=['normal exit', 'exceptional exit'], replace=['HuffLZ_GetNextCode', 'HuffLZ_GetRepeatOffset', 'HuffLZ_WriteCharToBuffer'], timeout=900,
    what='one code appends 1..60 bytes, never moves the read index; refused update propagates without writing')
-lz('FillDecompressBuffer', reach=['normal exit', 'exceptional exit'], replace=['HuffLZ_DecompressCode'], timeout=900,
+lz('FillDecompressBuffer', reach=['normal exit', 'exceptional exit'], replace=['HuffLZ_DecompressCode'], timeout=900, solver='cvc5',
    what='queue invariant: unread data never overwritten (DecompressCode precondition unread <= 4035 at every call), terminates')
 lz('CopyAvailableData', timeout=900, what='delivers min(size, unread) oldest bytes in order, advances the read index by the count')
 lz('GetInternalBuffer', reach=['normal exit', 'exceptional exit'], replace=['HuffLZ_FillDecompressBuffer'], timeout=900)
@@ -183,3 +183,19 @@ bmph('BitmapFile_VerifyPixelSizeMatchesImageDimensionsWithPitch', ['C08', 'C11']
 bmph('BitmapFile_VerifyIndexedImageForSerialization', ['C08', 'C11'], reach=EXC2, replace=['ImageHeader_IsIndexedImage'])
 bmph('BitmapFile_GetScanLineOrientation', ['C08', 'C09']); bmph('BitmapFile_AbsoluteHeight', ['C08', 'C11'])
 bmph('Color_SwapRedAndBlue', ['C08', 'C09', 'C10'])
+
+# ---- U-SPRH (C09, C10, C11, C18)
+def sprh(fn, props, reach=NOEXC, replace=(), **kw):
+    G('sprh.' + fn, props, 'sprh', fn, replace=list(replace), reach=reach, replay={'driver': 'spr_replay.cpp', 'case': fn}, **kw)
+sprh('SectionHeader_ctor0', ['C10', 'C18']); sprh('SectionHeader_ctor2', ['C09', 'C10', 'C18'])
+sprh('SectionHeader_Validate', ['C10', 'C11'], reach=EXC2); sprh('SectionHeader_TotalLength', ['C10'])
+sprh('TilesetHeader_Create', ['C09', 'C18'], replace=['SectionHeader_ctor2']); sprh('TilesetHeader_Validate', ['C09', 'C11'], reach=EXC2)
+sprh('PpalHeader_Create', ['C09', 'C18'], replace=['SectionHeader_ctor2']); sprh('PpalHeader_Validate', ['C09', 'C11'], reach=EXC2)
+sprh('Tileset_ValidateFileSignatureHeader', ['C09', 'C11'], reach=EXC2); sprh('Tileset_ValidatePaletteHeader', ['C09', 'C11'], reach=EXC2)
+sprh('Tileset_CalculatePixelHeaderLength', ['C09']); sprh('Tileset_ValidatePixelHeader', ['C09', 'C11'], reach=EXC2, replace=['Tileset_CalculatePixelHeaderLength'])
+sprh('Tileset_CalculatePbmpSectionSize', ['C09'], replace=['Tileset_CalculatePixelHeaderLength']); sprh('Tileset_ValidateTileset', ['C09', 'C11'], reach=EXC2)
+sprh('PaletteHeader_ctor', ['C10', 'C18'], replace=['SectionHeader_ctor0'])
+sprh('PaletteHeader_CreatePaletteHeader', ['C10', 'C18'], replace=['SectionHeader_ctor2', 'PaletteHeader_ctor'])
+sprh('PaletteHeader_Validate', ['C10', 'C11'], reach=EXC2, replace=['SectionHeader_Validate', 'SectionHeader_TotalLength'])
+sprh('ArtFile_VerifyImageIndexInBounds', ['C11'], reach=EXC2)
+sprh('ArtFile_ValidateImageMetadata', ['C10', 'C11'], reach=EXC2)
